@@ -16,7 +16,7 @@ from .. import automodel as am
 from ..monitors import EvalTracer
 
 glom = env.bind()
-from glom import T, SKIP, STOP, GlomError, glom as G  # noqa: E402
+from glom import T, SKIP, STOP, GlomError, Coalesce, glom as G  # noqa: E402
 
 META = {
     'level': 'exploration',
@@ -207,6 +207,49 @@ def systematic(col, rng):
         run_both(col, gen, node, tree, am.describe(node), 'ref')
 
 
+def literal_defaults_and_arguments_are_per_evaluation(col):
+    """"determined only by the outputs of its sub-specs": an (empty) container literal used as Coalesce default or as Call /
+    T-call argument yields a container of THIS evaluation - what a later step or the caller does to it shows up neither in
+    sibling evaluations of the same spec object nor in its next evaluation"""
+    def with_marker(lst):
+        lst.append('marker')
+        return lst
+
+    def collect(*a, **kw):
+        return [a, kw]
+    from glom import Call
+    cases = [
+        ('Coalesce default [] then in-place step', lambda: [(Coalesce('tags', default=[]), with_marker)], lambda: [{}, {}],
+         [['marker'], ['marker']]),
+        ('Coalesce default {} twice in a dict', lambda: {'a': Coalesce('zz', default={}), 'b': Coalesce('zz', default={})}, lambda: {'q': 1},
+         {'a': {}, 'b': {}}),
+        ('Call args ([],)', lambda: [Call(collect, args=([],), kwargs={'k': {}})], lambda: [1, 2], [[([],), {'k': {}}], [([],), {'k': {}}]]),
+        ('T call argument []', lambda: [T['fn']([])], lambda: [{'fn': with_marker}, {'fn': with_marker}], [['marker'], ['marker']]),
+        ('nested empty [[], {}]', lambda: Coalesce('zz', default=[[], {}]), lambda: {}, [[], {}]),
+    ]
+    for desc, mk, mk_target, want in cases:
+        spec = mk()
+        for n in (1, 2, 3):
+            got = call(G, mk_target(), spec)
+            col.case(('literal-per-evaluation', desc, n), True)
+            col.count('glom_evaluations')
+            if not got.ok or got.value != want:
+                col.violation('C03/literal-container-shared-between-evaluations' if n > 1 or 'then' in desc or 'T call' in desc
+                              else 'C03/literal-container-wrong-on-first-evaluation',
+                              '%s, evaluation #%d of one spec object: %r, expected %r' % (desc, n, got, want), None)
+                break
+            # the caller modifies every container of the result
+            stack = [got.value]
+            while stack:
+                v = stack.pop()
+                if isinstance(v, list):
+                    stack.extend(v); v.append('MUTATED-BY-CALLER')
+                elif isinstance(v, dict):
+                    stack.extend(v.values()); v['MUTATED-BY-CALLER'] = 1
+                elif isinstance(v, tuple):
+                    stack.extend(v)
+
+
 def run(ctx):
     col, rng = ctx.col, ctx.rng
     col.require('glom_evaluations', 1000)
@@ -218,6 +261,7 @@ def run(ctx):
     try:
         if ctx.shard == 0:
             systematic(col, rng)
+            literal_defaults_and_arguments_are_per_evaluation(col)
         for i in range(ctx.n(30000, 120000)):
             one_case(col, rng, tracer)
     finally:
